@@ -41,6 +41,23 @@ inductive Emit where
   /-- `match PATH { A(p) => sink.extend_from_slice(p.as_slice()), B(p) => …, … }`: every variant emits its payload -/
   | payload (path : List String)
 
+mutual
+/-- structural equality of exporter programs (the type is nested, so `deriving BEq` is not available) -/
+def Emit.beq : Emit → Emit → Bool
+  | .num p w, .num p' w' => p == p' && w == w'
+  | .bytes p, .bytes p' => p == p'
+  | .value p, .value p' => p == p'
+  | .each p x b, .each p' x' b' => p == p' && x == x' && Emit.beqL b b'
+  | .whenVariant p v x b, .whenVariant p' v' x' b' => p == p' && v == v' && x == x' && Emit.beqL b b'
+  | .whenSome p x b, .whenSome p' x' b' => p == p' && x == x' && Emit.beqL b b'
+  | .payload p, .payload p' => p == p'
+  | _, _ => false
+def Emit.beqL : List Emit → List Emit → Bool
+  | [], [] => true
+  | e :: es, e' :: es' => Emit.beq e e' && Emit.beqL es es'
+  | _, _ => false
+end
+
 abbrev EEnv := List (String × ETree)
 
 def ETree.field : ETree → String → Option ETree
@@ -153,5 +170,69 @@ def treeOfIpSet (s : IpSet) : ETree :=
 
 def treeOfIpfix (c : Config) (h : List Nat) (sets : List IpSet) : ETree :=
   .struct [("header", treeOfHeader c.t.ipHdr h), ("flowsets", .list (sets.map treeOfIpSet))]
+
+/-! ### the exporter programs the hand-written `exportV9` / `exportIpfix` correspond to (G3Export proves it, and that the programs
+    regenerated from the source are these) -/
+namespace G3
+def tfieldProg : List Emit := [.num ["field", "field_type_number"] 2, .num ["field", "field_length"] 2]
+
+def v9TemplatesProg : List Emit :=
+  [.each ["templates", "templates"] "template"
+     [.num ["template", "template_id"] 2, .num ["template", "field_count"] 2, .each ["template", "fields"] "field" tfieldProg],
+   .bytes ["templates", "padding"]]
+
+def v9OptTemplatesProg : List Emit :=
+  [.each ["options_templates", "templates"] "template"
+     [.num ["template", "template_id"] 2, .num ["template", "options_scope_length"] 2, .num ["template", "options_length"] 2,
+      .each ["template", "scope_fields"] "field" tfieldProg, .each ["template", "option_fields"] "field" tfieldProg],
+   .bytes ["options_templates", "padding"]]
+
+def v9DataProg : List Emit :=
+  [.each ["data", "fields"] "data_field" [.each ["data_field"] "field_value" [.value ["field_value"]]], .bytes ["data", "padding"]]
+
+def v9OptDataProg : List Emit :=
+  [.each ["options_data", "scope_fields"] "scope_field" [.payload ["scope_field"]],
+   .each ["options_data", "options_fields"] "option_field" [.bytes ["option_field", "field_value"]],
+   .bytes ["options_data", "padding"]]
+
+def v9SetProg : List Emit :=
+  [.num ["set", "header", "flowset_id"] 2, .num ["set", "header", "length"] 2,
+   .whenVariant ["set", "body"] "Template" "templates" v9TemplatesProg,
+   .whenVariant ["set", "body"] "OptionsTemplate" "options_templates" v9OptTemplatesProg,
+   .whenVariant ["set", "body"] "Data" "data" v9DataProg,
+   .whenVariant ["set", "body"] "OptionsData" "options_data" v9OptDataProg]
+
+def ipFieldProg : List Emit :=
+  [.num ["field", "field_type_number"] 2, .num ["field", "field_length"] 2,
+   .whenSome ["field", "enterprise_number"] "enterprise" [.num ["enterprise"] 4]]
+
+def ipTemplateProg : List Emit :=
+  [.num ["template", "template_id"] 2, .num ["template", "field_count"] 2, .each ["template", "fields"] "field" ipFieldProg,
+   .bytes ["template", "padding"]]
+
+def ipOptTemplateProg : List Emit :=
+  [.num ["options_template", "template_id"] 2, .num ["options_template", "field_count"] 2, .num ["options_template", "scope_field_count"] 2,
+   .each ["options_template", "fields"] "field" ipFieldProg, .bytes ["options_template", "padding"]]
+
+def ipDataProg : List Emit :=
+  [.each ["data", "fields"] "item" [.each ["item"] "v" [.value ["v"]]], .bytes ["data", "padding"]]
+
+def ipSetProg : List Emit :=
+  [.num ["flow", "header", "header_id"] 2, .num ["flow", "header", "length"] 2,
+   .whenVariant ["flow", "body"] "Template" "template" ipTemplateProg,
+   .whenVariant ["flow", "body"] "OptionsTemplate" "options_template" ipOptTemplateProg,
+   .whenVariant ["flow", "body"] "Data" "data" ipDataProg,
+   .whenVariant ["flow", "body"] "OptionsData" "data" ipDataProg]
+
+def v9StdProg : List Emit :=
+  [.num ["self", "header", "version"] 2, .num ["self", "header", "count"] 2, .num ["self", "header", "sys_up_time"] 4,
+   .num ["self", "header", "unix_secs"] 4, .num ["self", "header", "sequence_number"] 4, .num ["self", "header", "source_id"] 4,
+   .each ["self", "flowsets"] "set" v9SetProg]
+
+def ipStdProg : List Emit :=
+  [.num ["self", "header", "version"] 2, .num ["self", "header", "length"] 2, .num ["self", "header", "export_time"] 4,
+   .num ["self", "header", "sequence_number"] 4, .num ["self", "header", "observation_domain_id"] 4,
+   .each ["self", "flowsets"] "flow" ipSetProg]
+end G3
 
 end Netflow
